@@ -1504,10 +1504,11 @@ class Vmap(Generic[X, R], GFI[X, R]):
                 x, x_, None
             )
         else:
-            # Check should be broadcast across the batch dimension
-            merged, discarded = modular_vmap(self.gen_fn.merge, in_axes=(0, 0, 0))(
-                x, x_, check
-            )
+            # A scalar check is shared by all lanes; a batched one is per lane.
+            check_axis = 0 if jnp.ndim(check) > 0 else None
+            merged, discarded = modular_vmap(
+                self.gen_fn.merge, in_axes=(0, 0, check_axis)
+            )(x, x_, check)
         return merged, discarded
 
     def filter(self, x: X, selection: "Selection") -> tuple[X | None, X | None]:
